@@ -69,6 +69,8 @@ pub struct RunCtx {
     pub drop_fault_fired: bool,
     /// run signature: (op kind, result class, structural events)
     pub sig: Digest,
+    /// C18: digest of content-semantic observables only (lengths and sorted contents after every step)
+    pub transcript: Digest,
     pub nontrivial: bool,
     /// state signatures seen in this run
     pub states: Vec<u64>,
@@ -99,6 +101,7 @@ impl RunCtx {
             leaked_blocks: 0,
             drop_fault_fired: false,
             sig: Digest::new(),
+            transcript: Digest::new(),
             nontrivial: false,
             states: Vec::new(),
             ops_executed: 0,
@@ -237,6 +240,27 @@ impl RunCtx {
         if self.states.len() < 4096 {
             self.states.push(g.0);
         }
+    }
+
+    /// C18: folds a slot's observable contents into the transcript.
+    pub fn transcript_add(&mut self, slot: usize, len: usize, items: impl Iterator<Item = u64>) {
+        self.transcript.add(self.op_index as u64);
+        self.transcript.add(slot as u64);
+        self.transcript.add(len as u64);
+        for x in items {
+            self.transcript.add(x);
+        }
+    }
+
+    /// The C18 scanner monitor on one dump.
+    pub fn group_monitor(&mut self, d: &hashbrown::verif::VerifDump) -> VResult {
+        if self.cfg.group_monitor {
+            let salt = self.sig.0 ^ self.ops_executed;
+            if let Some((c, det)) = crate::groupmon::check(d, salt, 8) {
+                return Err(self.violation(&c, det));
+            }
+        }
+        Ok(())
     }
 
     /// Drains violations noticed inside callbacks / the allocator.
